@@ -85,6 +85,7 @@ var _ storage.Storage = noCAS{}
 
 type world struct {
 	c      Case
+	wg     sync.WaitGroup // task goroutines: all must have returned before the stores are closed
 	g      *vkit.Gate
 	amp    *amp
 	hs     []*hybrid.Storage
@@ -145,8 +146,33 @@ func (w *world) idm(nodeIdx int) *idgen.IDManager {
 	return w.idms[((nodeIdx%len(w.idms))+len(w.idms))%len(w.idms)]
 }
 
-func (w *world) close() {
+// drained waits (gate open) until every task goroutine has returned.
+func (w *world) drained(d time.Duration) bool {
 	w.g.Deactivate()
+	done := make(chan struct{})
+	go func() { w.wg.Wait(); close(done) }()
+	select {
+	case <-done:
+		return true
+	case <-time.After(d):
+		return false
+	}
+}
+
+// aborted classifies an aborted schedule: more steps than any terminating program can
+// take = the code under test does not terminate (reported); otherwise the scheduler gave up
+// because a task made no progress for seconds on a starved machine (case skipped).
+func (w *world) aborted(r *result, log []vkit.Step) {
+	fin := w.drained(60 * time.Second)
+	if len(log) >= w.g.MaxSteps || !fin {
+		r.key, r.detail = "C15/harness/schedule-aborted", fmt.Sprintf("steps=%d tasks finished=%v; %s", len(log), fin, vkit.StepsString(tail(log, 30)))
+		return
+	}
+	r.skipped = true
+}
+
+func (w *world) close() {
+	w.drained(60 * time.Second)
 	w.cancel()
 	for _, m := range w.idms {
 		m.Close()
@@ -373,6 +399,7 @@ type result struct {
 	faulted     bool
 	gens, rels  int
 	probeGens   int
+	skipped     bool
 }
 
 func sameClaimParked(desc []string) bool {
@@ -419,7 +446,7 @@ func runCase(c Case, choose func(int, []string) int) result {
 		}
 	}
 	w.g.MaxSteps = 2*idgen.MaxAttempts*totalGens + 200
-	w.g.Stall = 500 * time.Millisecond // no lock is held across store operations on the SetNX path: never wait-stall on a slow task
+	w.g.Stall = 2 * time.Second // no lock is held across store operations on the SetNX path: never wait-stall on a slow task
 	if c.Mode == "fallback" {
 		w.g.Stall = 3 * time.Millisecond // the fallback holds a local mutex across two store operations
 	}
@@ -427,7 +454,9 @@ func runCase(c Case, choose func(int, []string) int) result {
 	w.g.Activate()
 	for i := range c.Tasks {
 		ti, t := i, c.Tasks[i]
+		w.wg.Add(1)
 		w.g.Go(fmt.Sprintf("T%d", ti+1), func() {
+			defer w.wg.Done()
 			w.amp.bind(ti)
 			var held []string
 			for _, op := range t.Ops {
@@ -471,9 +500,10 @@ func runCase(c Case, choose func(int, []string) int) result {
 		}
 	}
 	if w.g.Aborted {
-		r.key, r.detail = "C15/harness/schedule-aborted", vkit.StepsString(tail(log, 30))
+		w.aborted(&r, log)
 		return r
 	}
+	w.drained(60 * time.Second)
 	kindSet := map[string]bool{}
 	for _, t := range c.Tasks {
 		kindSet[t.Kind] = true
@@ -568,12 +598,14 @@ func runNodeAlloc(c Case, choose func(int, []string) int) result {
 		}
 	}
 	w.g.MaxSteps = 4000
-	w.g.Stall = 500 * time.Millisecond
+	w.g.Stall = 2 * time.Second
 	w.g.FailAt = c.FailAt
 	w.g.Activate()
 	for i := range c.Tasks {
 		ti, t := i, c.Tasks[i]
+		w.wg.Add(1)
 		w.g.Go(fmt.Sprintf("T%d", ti+1), func() {
+			defer w.wg.Done()
 			w.amp.bind(ti)
 			type heldT struct {
 				a    *node.NodeIDAllocator
@@ -621,9 +653,10 @@ func runNodeAlloc(c Case, choose func(int, []string) int) result {
 		}
 	}
 	if w.g.Aborted {
-		r.key, r.detail = "C15/harness/schedule-aborted", vkit.StepsString(tail(log, 30))
+		w.aborted(&r, log)
 		return r
 	}
+	w.drained(60 * time.Second)
 	slots := func(string) []int {
 		var out []int
 		for s := range free {
@@ -704,6 +737,10 @@ func report(t vkit.TB, c Case, r result) {
 		topo = "shared-tier"
 	}
 	class := c.Mode + "/" + topo
+	if r.skipped {
+		vkit.Skipped(1)
+		return
+	}
 	nontrivial := r.contended || r.exhausted
 	if r.key != "" {
 		vkit.Violation(t, r.key, r.detail, c)
